@@ -39,7 +39,7 @@ Proof.
   | |- context [polyfit ?X ?Y ?D] =>
       replace (polyfit X Y D) with c by (rewrite Ec; unfold model_coeffs; f_equal; list_eq)
   end.
-  rewrite map_map, zipw_map_self. apply map_ext. intros v. reflexivity.
+  rewrite map_map, zipw_map_self. apply map_ext. intros v. first [reflexivity | rops; unfold Rdiv; ring].
 Qed.
 
 (** whenever the model's static column is defined (the coefficients pass the least-squares certificate), it IS the
